@@ -140,6 +140,10 @@ func boxedMethods(info *types.Info, body ast.Node) []*types.Func {
 
 // coerce: the Lean expression for `val` stored in a slot of type `slot`
 func (t *fnTrans) coerce(n ast.Node, slot types.Type, val ast.Expr) string {
+	if slot != nil && isReaderType(slot) && !t.isNil(val) && isSectionReader(typeOfIn(t.pi.info, val)) {
+		// a *io.SectionReader stored in an io.Reader slot: the bytes it delivers
+		return t.asReader(val)
+	}
 	nt, it, ok := libIface(slot)
 	if !ok || t.isNil(val) {
 		return t.expr(val)
